@@ -11,6 +11,9 @@ func TestMain(m *testing.M) { hx.Main(m, "C12") }
 
 func TestProp(t *testing.T) { hx.Check(t, "signal", Gen, Exec) }
 
+// TestPropChildRace: child creation swept against the parent's end (two goroutines per round).
+func TestPropChildRace(t *testing.T) { hx.Check(t, "childrace", GenRace, ExecRace) }
+
 func TestReplay(t *testing.T) {
-	hx.Replay(t, map[string]func(json.RawMessage) (hx.Verdict, error){"signal": hx.Exec(Exec), "": hx.Exec(Exec)})
+	hx.Replay(t, map[string]func(json.RawMessage) (hx.Verdict, error){"signal": hx.Exec(Exec), "": hx.Exec(Exec), "childrace": hx.Exec(ExecRace)})
 }
